@@ -5,6 +5,7 @@ CHECK = {
         suite("env", "c15", 1500, 60000, stdin=True, args=["-suite", "env"]),
         suite("src", "c15", 600, 8000, stdin=True, args=["-suite", "src"]),
         suite("val", "c15", 800, 20000, stdin=True, args=["-suite", "val"]),
+        suite("ident", "c15", 400, 6000, stdin=True, args=["-suite", "ident"]),
     ],
     "gen": [{"pkg": "extract_c15", "out": "lean/ClusterVerif/Gen/C15.lean"}],
     "lean_sources": ["ClusterVerif/Model/C15.lean", "ClusterVerif/Spec/C15.lean", "ClusterVerif/Gen/C15.lean"],
@@ -23,9 +24,19 @@ CHECK = {
             "on both sides of every boundary (all combinations for up to 3 rows, keys removed, null/empty collections) — real LoadJSON, real Validate() on "
             "the resulting object and the Config fields by reflection against the conjunct model; file also: a Manager file with an unknown component, a "
             "null unknown component, an unknown top-level key, an undefined registered component and duplicate keys (case kind mgr), "
+            "env also (round 8): per field two well-formed, one zero and one malformed value through config.Manager with all 14 sections registered - "
+            "Manager.LoadJSON then Manager.ApplyEnvVars (menv), and a file holding another accepted value written to disk then Manager.LoadJSONFileAndEnv (menvfile); "
+            "ident: one config.Identity over operation sequences (LoadJSON / LoadJSONFromFile of every id x key token pair: 3 generated key pairs, "
+            "unparsable id, empty, absent, non-base64, non-key bytes; garbage; ApplyEnvVars with CLUSTER_ID / CLUSTER_PRIVATEKEY set or unset), every single load, "
+            "every load or environment pass after an accepted load, every environment pass after a refused (half-applied) load, then Validate, ToJSON, SaveJSON (file mode), "
+            "reload by a fresh Identity, compared observation for observation with the Ident model; plus config.DisplayJSON on synthetic struct types "
+            "(hidden string/int/map/slice/struct/pointer fields, omitempty, zero values, tags one level down in struct, pointer, slice and map elements), "
+            "config.SetIfNotDefault per Go type over boundary values (also types without an arm), config.ParseDurations over argument lists, and restapi's "
+            "libp2p identity (4 id x 5 key tokens x listen address on/off), "
             "then n seeded random cases (random field, random value of its type, 1/12 byte-mangled JSON); non-trivial = the loader "
             "accepted or refused a set value (unset/null accepted cases are trivial); distinct by case line",
     "trusted_base": ["go/ast pattern matcher harness/common/c15_schema.go (fail-closed: unmatched references become kind custom)",
+                     "statement recognisers harness/common/c15_util.go for SetIfNotDefault, applyIdentityJSON, Manager.LoadJSONFileAndEnv/ApplyEnvVars (exact shapes; anything else is '?', which the model cannot interpret)",
                      "statement-shape recognisers harness/common/c15_codec.go (regular expressions over the normalised source of whole statement windows; no match = custom) and c15_validate.go (expression language of Validate conjuncts; no match = opaque)",
                      "library codecs: NewMultiaddr/String, peer.Decode/Encode, hex and base64 decode/encode, crypto.UnmarshalPrivateKey/Bytes round-trip what they accept (like time.ParseDuration/String); integer casts uint <-> goleveldb.Compression/Strict preserve the value",
                      "reflection on the exported Config struct field named by the translator for eff/eff2",
@@ -35,6 +46,8 @@ CHECK = {
                      "value classification of the generator (vc=zero|wf|mal|unset) and the frozen secret-name list of the Spec"],
     "assumptions": ["an empty environment variable means 'not set' (not counted as a setting)",
                     "identity.json is never displayed (config.Identity has no ToDisplayJSON), so its private_key needs no hidden tag",
+                    "Identity.ApplyEnvVars / ToJSON are only called on an Identity that holds a private key (they dereference a nil key otherwise; every caller loads or Default()s first)",
+                    "peer IDs and keys are abstracted to the index of their key pair: peer.IDFromPublicKey is injective on the generated pairs",
                     "an opaque Validate conjunct that reads no Config field a JSON key is loaded into (cluster isRPCPolicyValid(cfg.RPCPolicy)) has the same value for every file; the default case of every run observes that it does not fire",
                     "DisplayJSON masks top-level struct fields only: theorem table_no_nested_hidden keeps every hidden tag at the top level"],
 }
@@ -61,7 +74,20 @@ META = {
             "the allow-list is down to the two legacy keys. Validate() of every section is read as a conjunction of (guard, condition) pairs over a small expression language "
             "(cross-field comparisons, len, String(), nil, && || !, inlined helpers): defaults validate (decide), LoadJSON accepts => no conjunct fires, and the evaluator predicts the real "
             "Validate() and LoadJSON on both sides of every boundary. A whole Manager file is modelled as maps group -> name -> entry: manager_save_load_id, unknown_sections_policy "
-            "(unknown components kept verbatim, undefined registered components written with defaults, null registered component refused), display_hides_all_hidden, dup_last_wins.",
+            "(unknown components kept verbatim, undefined registered components written with defaults, null registered component refused), display_hides_all_hidden, dup_last_wins."
+            " Round 8: environment variables over a loaded value are modelled (applyEnvScalar, fileThenEnv): env_overrides_file, env_unset_keeps_file, "
+            "env_zero_keeps_file (a variable cannot reset a zero-blind setting to zero), file_after_env_drops_env (refutation of the reversed order), and the real "
+            "Manager.ApplyEnvVars / LoadJSONFileAndEnv are swept per field. identity.json has a model of its own (apply order ID, key, Validate; key pairs as indices): "
+            "accept_iff, accepted_valid, roundtrip, mismatch_refused, malformed_refused, env_overrides, env_unset_keeps, env_half_refused, env_accepted_valid, "
+            "history_roundtrip (after any operation sequence an accepted operation leaves a valid Identity whose saved form reloads to the same state), "
+            "refused_load_not_inert (observation). config.DisplayJSON is modelled over leaves with tagged paths: display_hides_top, displayDeep_hides_tagged, "
+            "display_eq_deep_iff (the code equals the deep walk exactly when no tag sits below the top level) and nested_hidden_leaks (refutation of the hide law for "
+            "arbitrary nesting); the real DisplayJSON is driven with nested secret-bearing values and must agree leaf by leaf. Semantic go/ast tables, regenerated "
+            "on every run and interpreted by the model: the arms of SetIfNotDefault's type switch (table_sind_covers: every row copied with it has an arm of its Go type that "
+            "assigns exactly the non-zero values; sind_arm_is_loadScalar, sind_no_arm_drops), the statement sequence of applyIdentityJSON (gen_ident_apply: its interpretation "
+            "equals the model's apply for all inputs), the call order of Manager.LoadJSONFileAndEnv and the reach of Manager.ApplyEnvVars (gen_file_env_order, "
+            "table_manager_env_reach); SetIfNotDefault and ParseDurations are also driven directly per Go type / argument list, and restapi's libp2p identity "
+            "(all-or-none, ID matches key: rest_accept_iff, rest_roundtrip) against the real rest.Config.",
     "note": "Trusted: Lean kernel (+propext, Classical.choice, Quot.sound), the go/ast translator's pattern matcher (fail-closed), the harness "
             "(reflection on Config fields, value classification), Go's time and encoding/json. Known findings on the unchanged tree: K11 "
             "(booleans cannot be set to false under SetIfNotDefault/mergo), K12 (explicit empty string/list replaced by the default). Found by this "
